@@ -172,7 +172,224 @@ namespace vf
       }
    }
 
+   // ------------------------------------------------------------------ named rules, logging controls and actions (C04, C05, C08, C13)
+
+   // a named grammar rule  `struct X : seq< R... > {}`  with identity 100+ID
+   template< int ID, typename... Rules >
+   struct named
+      : seq< Rules... >
+   {};
+
+   template< int ID, typename... Rules >
+   struct rid< named< ID, Rules... > >
+   {
+      static constexpr int value = 100 + ID;
+   };
+
+   // control that logs every hook of identified rules (sym<K>, named<ID,...>); with unwind()
+   template< typename Rule >
+   struct lcontrol
+      : vcontrol< Rule >
+   {
+      static constexpr bool logged = ( rid< Rule >::value >= 0 );
+
+      template< typename ParseInput, typename... States >
+      static void start( const ParseInput& in, States&&... /*unused*/ )
+      {
+         if constexpr( logged ) {
+            verif_event( EV_START, rid< Rule >::value, in.byte(), 0 );
+         }
+      }
+
+      template< typename ParseInput, typename... States >
+      static void success( const ParseInput& in, States&&... /*unused*/ )
+      {
+         if constexpr( logged ) {
+            verif_event( EV_SUCCESS, rid< Rule >::value, in.byte(), 0 );
+         }
+      }
+
+      template< typename ParseInput, typename... States >
+      static void failure( const ParseInput& /*unused*/, States&&... /*unused*/ )
+      {
+         if constexpr( logged ) {
+            verif_event( EV_FAILURE, rid< Rule >::value, 0, 0 );
+         }
+      }
+
+      template< typename ParseInput, typename... States >
+      static void unwind( const ParseInput& /*unused*/, States&&... /*unused*/ )
+      {
+         if constexpr( logged ) {
+            verif_event( EV_UNWIND, rid< Rule >::value, 0, 0 );
+         }
+      }
+
+      template< typename ParseInput, typename... States >
+      [[noreturn]] static void raise( const ParseInput& in, States&&... st )
+      {
+         verif_event( EV_RAISE, rid< Rule >::value, 0, 0 );
+         vcontrol< Rule >::raise( in, st... );
+      }
+   };
+
+   // the same without unwind(): match() then takes no unwind guard
+   template< typename Rule >
+   struct lcontrol_nu
+      : vcontrol< Rule >
+   {
+      static constexpr bool logged = ( rid< Rule >::value >= 0 );
+
+      template< typename ParseInput, typename... States >
+      static void start( const ParseInput& in, States&&... /*unused*/ )
+      {
+         if constexpr( logged ) {
+            verif_event( EV_START, rid< Rule >::value, in.byte(), 0 );
+         }
+      }
+
+      template< typename ParseInput, typename... States >
+      static void success( const ParseInput& in, States&&... /*unused*/ )
+      {
+         if constexpr( logged ) {
+            verif_event( EV_SUCCESS, rid< Rule >::value, in.byte(), 0 );
+         }
+      }
+
+      template< typename ParseInput, typename... States >
+      static void failure( const ParseInput& /*unused*/, States&&... /*unused*/ )
+      {
+         if constexpr( logged ) {
+            verif_event( EV_FAILURE, rid< Rule >::value, 0, 0 );
+         }
+      }
+
+      template< typename ParseInput, typename... States >
+      [[noreturn]] static void raise( const ParseInput& in, States&&... st )
+      {
+         verif_event( EV_RAISE, rid< Rule >::value, 0, 0 );
+         vcontrol< Rule >::raise( in, st... );
+      }
+   };
+
+   template< typename ActionInput >
+   inline unsigned long off_begin( const ActionInput& in )
+   {
+      return (unsigned long)( in.begin() - in.input().begin() );
+   }
+
+   template< typename ActionInput >
+   inline unsigned long off_end( const ActionInput& in )
+   {
+      return (unsigned long)( in.end() - in.input().begin() );
+   }
+
+   // actions for identified rules; everything else behaves like nothing<>
+   template< typename Rule, typename = void >
+   struct act_void : nothing< Rule > {};
+   template< typename Rule >
+   struct act_void< Rule, std::enable_if_t< ( rid< Rule >::value >= 0 ) > >
+   {
+      template< typename ActionInput, typename... States >
+      static void apply( const ActionInput& in, States&&... /*unused*/ )
+      {
+         verif_event( EV_APPLY, rid< Rule >::value, off_begin( in ), off_end( in ) );
+      }
+   };
+
+   // bool apply: verdict from the harness: 0 veto, 1 accept, 2 throw a foreign exception
+   template< typename Rule, typename = void >
+   struct act_bool : nothing< Rule > {};
+   template< typename Rule >
+   struct act_bool< Rule, std::enable_if_t< ( rid< Rule >::value >= 0 ) > >
+   {
+      template< typename ActionInput, typename... States >
+      static bool apply( const ActionInput& in, States&&... /*unused*/ )
+      {
+         verif_event( EV_APPLY, rid< Rule >::value, off_begin( in ), off_end( in ) );
+         const int v = verif_veto( rid< Rule >::value, off_begin( in ), off_end( in ) );
+         if( v == 2 ) {
+            throw foreign_exc{ 3000 + rid< Rule >::value };
+         }
+         return v != 0;
+      }
+   };
+
+   template< typename Rule, typename = void >
+   struct act0_void : nothing< Rule > {};
+   template< typename Rule >
+   struct act0_void< Rule, std::enable_if_t< ( rid< Rule >::value >= 0 ) > >
+   {
+      template< typename... States >
+      static void apply0( States&&... /*unused*/ )
+      {
+         verif_event( EV_APPLY0, rid< Rule >::value, 0, 0 );
+      }
+   };
+
+   template< typename Rule, typename = void >
+   struct act0_bool : nothing< Rule > {};
+   template< typename Rule >
+   struct act0_bool< Rule, std::enable_if_t< ( rid< Rule >::value >= 0 ) > >
+   {
+      template< typename... States >
+      static bool apply0( States&&... /*unused*/ )
+      {
+         verif_event( EV_APPLY0, rid< Rule >::value, 0, 0 );
+         const int v = verif_veto( rid< Rule >::value, 0, 0 );
+         if( v == 2 ) {
+            throw foreign_exc{ 3000 + rid< Rule >::value };
+         }
+         return v != 0;
+      }
+   };
+
+   // pseudo actions for the apply<> / apply0<> / if_apply<> rules, identity 500+ID
+   template< int ID >
+   struct pa
+   {
+      template< typename ActionInput, typename... States >
+      static void apply( const ActionInput& in, States&&... /*unused*/ )
+      {
+         verif_event( EV_APPLY, 500 + ID, off_begin( in ), off_end( in ) );
+      }
+
+      template< typename... States >
+      static void apply0( States&&... /*unused*/ )
+      {
+         verif_event( EV_APPLY0, 500 + ID, 0, 0 );
+      }
+   };
+
+   template< int ID >
+   struct pab
+   {
+      template< typename ActionInput, typename... States >
+      static bool apply( const ActionInput& in, States&&... /*unused*/ )
+      {
+         verif_event( EV_APPLY, 500 + ID, off_begin( in ), off_end( in ) );
+         const int v = verif_veto( 500 + ID, off_begin( in ), off_end( in ) );
+         if( v == 2 ) {
+            throw foreign_exc{ 3500 + ID };
+         }
+         return v != 0;
+      }
+
+      template< typename... States >
+      static bool apply0( States&&... /*unused*/ )
+      {
+         verif_event( EV_APPLY0, 500 + ID, 0, 0 );
+         const int v = verif_veto( 500 + ID, 0, 0 );
+         if( v == 2 ) {
+            throw foreign_exc{ 3500 + ID };
+         }
+         return v != 0;
+      }
+   };
+
 }  // namespace vf
+
+
 
 #define VF_WRAP( name, ... ) \
    extern "C" __attribute__( ( noinline ) ) void name( const char* b, unsigned long n, unsigned long s, unsigned long* o ) { vf::run< __VA_ARGS__ >( b, n, s, o ); }
